@@ -4,7 +4,8 @@ PATCH=$1; shift
 cd /repo && git status --short | grep -q . && { echo "/repo not clean"; exit 2; }
 git -C /repo apply "$PATCH" || { echo "patch does not apply"; exit 2; }
 for P in "$@"; do
-  cd /verif && ./check $P quick > /tmp/eval-$P.txt 2>&1; rc=$?
+  mkdir -p /verif/.work/selftest-scratch
+  cd /verif && VERIF_SCRATCH=/verif/.work/selftest-scratch ./check $P quick > /tmp/eval-$P.txt 2>&1; rc=$?
   nv=$(grep -c '^VIOLATION' /tmp/eval-$P.txt)
   echo "$P exit=$rc violations_printed=$nv $(grep -E '^\[C.*quick' /tmp/eval-$P.txt | tail -1)"
   grep -E "violated in" /tmp/eval-$P.txt | awk '{print $2}' | sort | uniq -c | head -5
